@@ -143,7 +143,7 @@ Definition read_tasks (sid : Z) (d : db) : list tsnap :=
 Definition snap_of (r : srow) (ts : list tsnap) : snap := mk_snap (s_id r) (s_ver r) (s_status r) (s_pay r) ts.
 
 (* ---------------------------------------------------------------- the modification a worker applies in memory *)
-Record modn := mk_mod { m_status : option Z; m_tag : Z; m_set : list (Z * Z); m_new : list (Z * Z) }.
+Record modn := mk_mod { m_status : option Z; m_tag : option Z; m_set : list (Z * Z); m_new : list (Z * Z) }.
 
 Fixpoint assocZ (x : Z) (l : list (Z * Z)) : option Z :=
   match l with [] => None | (a, b) :: r => if a =? x then Some b else assocZ x r end.
@@ -159,7 +159,7 @@ Fixpoint add_tasks (news : list (Z * Z)) (ts : list tsnap) : list tsnap :=
 
 Definition apply_mod (m : modn) (n : snap) : snap :=
   mk_snap (n_id n) (n_ver n) (match m_status m with Some s => s | None => n_status n end)
-          (n_pay n ++ [m_tag m]) (add_tasks (m_new m) (set_tasks m (n_tasks n))).
+          (n_pay n ++ match m_tag m with Some t => [t] | None => [] end) (add_tasks (m_new m) (set_tasks m (n_tasks n))).
 
 (* version-free view of a stage: what "no committed change is lost" is about *)
 Record view := mk_view { v_status : Z; v_pay : list Z; v_tasks : list (Z * Z) }.
